@@ -369,6 +369,210 @@ impl Subject for HMacKey<CS> {
 
 // ---------------------------------------------------------------------------------------------
 
+// ---------------------------------------------------------------------------------------------
+// key types whose id is NOT a function of the secret (a stable slot id, like the constant-id key
+// types of the repository's own engine tests): several different secrets are wrapped under the
+// same (kind, id), so the wrapped forms share their associated data
+
+macro_rules! slot_key {
+    ($name:ident, $kind:ident, $inner:ty, $idbyte:expr) => {
+        pub struct $name<CS: CipherSuite> {
+            key: $inner,
+            _cs: core::marker::PhantomData<CS>,
+        }
+        impl<CS: CipherSuite> Identified for $name<CS> {
+            type Id = BaseId;
+            fn id(&self) -> Result<BaseId, IdError> {
+                Ok(BaseId::from_bytes([$idbyte; 32]))
+            }
+        }
+        unwrapped! {
+            name: $name;
+            type: $kind;
+            into: |k: Self| { k.key };
+            from: |key| { Self { key, _cs: core::marker::PhantomData } };
+        }
+    };
+}
+slot_key!(SlotAeadKey, Aead, <CS::Aead as Aead>::Key, 0xA1);
+slot_key!(SlotMacKey, Mac, <CS::Mac as Mac>::Key, 0xA2);
+slot_key!(SlotSeed, Seed, [u8; 64], 0xA3);
+
+/// What identifies the secret inside an unwrapped key, for reporting.
+trait Fingerprint: UnwrappedKey<CS> + Sized {
+    const NAME: &'static str;
+    const KIND: u8;
+    fn fresh(seed: u64, i: u64) -> Self;
+    fn fingerprint(&self) -> Vec<u8>;
+}
+impl Fingerprint for SlotAeadKey<CS> {
+    const NAME: &'static str = "SlotAeadKey(constant id)";
+    const KIND: u8 = 0;
+    fn fresh(seed: u64, i: u64) -> Self {
+        SlotAeadKey { key: Random::random(rng(seed, 3620, i)), _cs: core::marker::PhantomData }
+    }
+    fn fingerprint(&self) -> Vec<u8> {
+        self.key.try_export_secret().map(|b| b.as_bytes().to_vec()).unwrap_or_default()
+    }
+}
+impl Fingerprint for SlotMacKey<CS> {
+    const NAME: &'static str = "SlotMacKey(constant id)";
+    const KIND: u8 = 2;
+    fn fresh(seed: u64, i: u64) -> Self {
+        SlotMacKey { key: Random::random(rng(seed, 3621, i)), _cs: core::marker::PhantomData }
+    }
+    fn fingerprint(&self) -> Vec<u8> {
+        self.key.try_export_secret().map(|b| b.as_bytes().to_vec()).unwrap_or_default()
+    }
+}
+impl Fingerprint for SlotSeed<CS> {
+    const NAME: &'static str = "SlotSeed(constant id)";
+    const KIND: u8 = 4;
+    fn fresh(seed: u64, i: u64) -> Self {
+        let mut key = [0u8; 64];
+        aranya_crypto::Csprng::fill_bytes(&rng(seed, 3622, i), &mut key);
+        SlotSeed { key, _cs: core::marker::PhantomData }
+    }
+    fn fingerprint(&self) -> Vec<u8> {
+        self.key.to_vec()
+    }
+}
+/// For the repository's key types (id derived from the key material) the id is the fingerprint;
+/// "several wraps under the same (kind, id)" are then re-wrappings of one key, plus wraps of other
+/// keys of the type as donors.
+macro_rules! real_fingerprint {
+    ($($t:ty),*) => { $(
+        impl Fingerprint for $t {
+            const NAME: &'static str = <$t as Subject>::NAME;
+            const KIND: u8 = <$t as Subject>::KIND;
+            fn fresh(seed: u64, i: u64) -> Self {
+                // wraps 0,1,2 are the same key (same id), 3.. are other keys
+                <$t as Subject>::make(seed, if i < 3 { 50 } else { 50 + i })
+            }
+            fn fingerprint(&self) -> Vec<u8> {
+                self.id_bytes().to_vec()
+            }
+        }
+    )* };
+}
+real_fingerprint!(IdentityKey<CS>, SigningKey<CS>, SenderSigningKey<CS>, EncryptionKey<CS>, SenderSecretKey<CS>, ReceiverSecretKey<CS>, UniAuthorSecret<CS>, GroupKey<CS>, PskSeed<CS>, HAeadKey<CS>, HMacKey<CS>);
+
+/// Cross-blob modifications: `n` wrapped keys of one type produced by one engine; every blob in turn
+/// is the base and gets its nonce / ciphertext / tag replaced by another blob's, and its ciphertext
+/// and tag XOR-combined with those of every subset of ≤ 3 other blobs. None of the results was ever
+/// produced by `wrap`, so every one must fail to unwrap.
+fn cross_blob_job<T: Fingerprint>(p: &Params, slot: u64) -> Tally {
+    let mut t = Tally::default();
+    let eng = engine(p.seed, 36, 1);
+    let n: u64 = if p.tier == Tier::Thorough { 6 } else { 5 };
+    let mut blobs: Vec<Vec<u8>> = vec![];
+    let mut prints: Vec<Vec<u8>> = vec![];
+    for i in 0..n {
+        let k = T::fresh(p.seed, slot * 100 + i);
+        prints.push(k.fingerprint());
+        let w = eng.wrap(k).unwrap_or_else(|e| mcx::machinery_error(&format!("wrap {}: {e}", T::NAME)));
+        blobs.push(postcard::to_allocvec(&w).unwrap_or_else(|e| mcx::machinery_error(&format!("encode wrapped: {e}"))));
+    }
+    let len = blobs[0].len();
+    if blobs.iter().any(|b| b.len() != len || b[45] != T::KIND || b[0] != 0x20) || len < 62 + 16 {
+        mcx::machinery_error(&format!("wrapped-key layout assumption broke for {}", T::NAME));
+    }
+    let same_ad: Vec<bool> = blobs.iter().map(|b| b[1..33] == blobs[0][1..33]).collect();
+    t.count("cross_blob_groups", 1);
+    t.count("cross_blob_wraps_sharing_kind_and_id", same_ad.iter().filter(|x| **x).count() as u64);
+    let (nonce, ct, tag) = (33..45usize, 46..len - 16, len - 16..len);
+    let xor_into = |dst: &mut [u8], src: &[u8]| dst.iter_mut().zip(src).for_each(|(d, s)| *d ^= s);
+    for base in 0..blobs.len() {
+        let others: Vec<usize> = (0..blobs.len()).filter(|j| *j != base).collect();
+        let mut forms: Vec<(String, Vec<u8>)> = vec![];
+        // replacements by another wrap's fields
+        for &j in &others {
+            for (nm, parts) in [("nonce", vec![&nonce]), ("ciphertext", vec![&ct]), ("tag", vec![&tag]), ("ciphertext+tag", vec![&ct, &tag]), ("nonce+ciphertext", vec![&nonce, &ct]), ("nonce+tag", vec![&nonce, &tag])] {
+                let mut b = blobs[base].clone();
+                for r in parts {
+                    b[r.clone()].copy_from_slice(&blobs[j][r.clone()]);
+                }
+                forms.push((format!("{nm}:=other"), b));
+            }
+        }
+        // XOR combinations over every subset of ≤ 3 other wraps
+        for mask in 1u32..(1 << others.len()) {
+            let k = mask.count_ones();
+            if k > 3 {
+                continue;
+            }
+            let set: Vec<usize> = others.iter().enumerate().filter(|(i, _)| mask >> i & 1 == 1).map(|(_, j)| *j).collect();
+            for (nm, do_ct, do_tag) in [("ciphertext+tag", true, true), ("ciphertext", true, false), ("tag", false, true)] {
+                let mut b = blobs[base].clone();
+                for &j in &set {
+                    if do_ct {
+                        xor_into(&mut b[ct.clone()], &blobs[j][ct.clone()]);
+                    }
+                    if do_tag {
+                        xor_into(&mut b[tag.clone()], &blobs[j][tag.clone()]);
+                    }
+                }
+                forms.push((format!("{nm}^=xor-of-{k}-others"), b.clone()));
+                if do_ct && do_tag {
+                    // the same with the nonce of a member of the subset
+                    let mut b2 = b.clone();
+                    b2[nonce.clone()].copy_from_slice(&blobs[set[0]][nonce.clone()]);
+                    forms.push((format!("{nm}^=xor-of-{k}-others,nonce:=member"), b2));
+                }
+            }
+        }
+        for (name, bytes) in forms {
+            if blobs.iter().any(|b| *b == bytes) {
+                // identical to a wrapped key that `wrap` produced: not a modification
+                t.count("cross_blob_forms_equal_to_a_real_wrap", 1);
+                continue;
+            }
+            t.count("evaluations", 1);
+            t.count("cross_blob_cases", 1);
+            if name.contains("xor") {
+                t.count("cross_blob_xor_cases", 1);
+            }
+            let res = match postcard::from_bytes::<W>(&bytes) {
+                Err(_) => Err("decode".to_string()),
+                Ok(w) => match eng.unwrap::<T>(&w) {
+                    Ok(k) => Ok(k.fingerprint()),
+                    Err(UnwrapError::Open(_)) => Err("auth".into()),
+                    Err(e) => Err(format!("other: {e}")),
+                },
+            };
+            let desc = format!("{}/cross-blob:{name}/base{base}#{slot}", T::NAME);
+            match res {
+                Err(e) => {
+                    t.outcome(&format!("cross_blob:rejected_by_{}", e.split(':').next().unwrap_or("")));
+                    if e == "auth" {
+                        t.count("rejected_by_auth", 1);
+                        t.count("cross_blob_rejected_by_auth", 1);
+                    }
+                    t.nontrivial(&desc);
+                }
+                Ok(fp) => {
+                    t.nontrivial(&desc);
+                    let novel = !prints.contains(&fp);
+                    t.outcome(if novel { "cross_blob:accepted_never_wrapped_secret" } else { "cross_blob:accepted_other_wrapped_secret" });
+                    t.violation(
+                        format!("{}/cross-blob:{name}", T::NAME),
+                        format!(
+                            "a wrapped key assembled from {} wrapped keys of the same type (never produced by wrap) unwrapped successfully, to {}",
+                            blobs.len(),
+                            if novel { "a secret that was never wrapped" } else { "the secret of another wrapped key" }
+                        ),
+                        json!({"type": T::NAME, "form": name, "base": base, "slot": slot, "bytes": hexs(&bytes), "wrapped": blobs.iter().map(|b| hexs(b)).collect::<Vec<_>>()}),
+                    );
+                }
+            }
+        }
+    }
+    if slot == 0 {
+        t.sample(json!({"type": T::NAME, "cross_blob_wraps": blobs.len(), "sharing_kind_and_id": same_ad.iter().filter(|x| **x).count(), "encoded_len": len}));
+    }
+    t
+}
+
 #[derive(Debug, Clone, PartialEq)]
 enum Res {
     Ok([u8; 32]),
@@ -641,6 +845,27 @@ pub fn run(args: &Args) {
         HAeadKey<CS>,
         HMacKey<CS>
     );
+    // cross-blob modifications over several wraps sharing (kind, id)
+    let slots = args.tier.pick(2u64, 4u64);
+    macro_rules! add_cross {
+        ($($t:ty),*) => { $( for k in 0..slots { jobs.push((cross_blob_job::<$t>, k)); } )* };
+    }
+    add_cross!(
+        SlotAeadKey<CS>,
+        SlotMacKey<CS>,
+        SlotSeed<CS>,
+        IdentityKey<CS>,
+        SigningKey<CS>,
+        SenderSigningKey<CS>,
+        EncryptionKey<CS>,
+        SenderSecretKey<CS>,
+        ReceiverSecretKey<CS>,
+        UniAuthorSecret<CS>,
+        GroupKey<CS>,
+        PskSeed<CS>,
+        HAeadKey<CS>,
+        HMacKey<CS>
+    );
     let tally = jobs
         .par_iter()
         .map(|(f, k)| f(&p, *k))
@@ -656,18 +881,19 @@ pub fn run(args: &Args) {
     rep.set(
         "rule",
         format!(
-            "11 key types (9 of the repository, 2 harness types for the AEAD and MAC kinds) × {nkeys} keys × {{untouched, DESIGN 4.8 over the postcard form per field idlen/id/nonce/kind/ciphertext/tag ({}), field swaps with a second wrapped key and a re-wrapping, kind discriminant := 0..7}} × unwrap as each of the 11 types × {{wrapping engine, second engine key}}; distinct_nontrivial = distinct tampered (form, requested type, engine) triples that decoded and reached the AEAD open",
+            "11 key types (9 of the repository, 2 harness types for the AEAD and MAC kinds) × {nkeys} keys × {{untouched, DESIGN 4.8 over the postcard form per field idlen/id/nonce/kind/ciphertext/tag ({}), field swaps with a second wrapped key and a re-wrapping, kind discriminant := 0..7}} × unwrap as each of the 11 types × {{wrapping engine, second engine key}}; plus cross-blob modifications: 5 (thorough 6) wrapped keys per type and slot — for 3 constant-id key types (AEAD, MAC, seed kind) different secrets under the same (kind, id), for the 11 types above three re-wrappings of one key and wraps of other keys — each in turn as base with nonce / ciphertext / tag (and pairs of them) replaced by another wrap's and with ciphertext, tag, ciphertext+tag XOR-combined over every subset of ≤ 3 other wraps (also with a member's nonce); distinct_nontrivial = distinct tampered (form, requested type, engine) triples that decoded and reached the AEAD open",
             if args.tier == Tier::Thorough { "every byte position, full alphabet, every single-bit flip, all truncations; plus every such modification paired with every kind re-tagging" } else { "every byte position, full alphabet, every single-bit flip, all truncations" }
         ),
     );
     rep.set("exhaustive", true);
     rep.assume("binding property only, for DefaultEngine with DefaultCipherSuite and deterministic keys; nothing cryptographic is claimed");
     rep.assume("AEAD- and MAC-kind keys have no key type in the repository; the harness declares one each through the public `unwrapped!` macro");
+    rep.assume("key types whose id is not a function of the secret (constant slot id) are legal for Engine::wrap and occur in the repository's own engine tests; the harness declares three (AEAD, MAC, seed kind) so that several different secrets share one (kind, id)");
     rep.assume("unwrapping as another key type of the same algorithm kind, and a trailing byte after the encoding, are not covered by the statement: recorded as outcome classes only");
     guards(
         &mut rep,
-        &["wrapped_keys", "tampered_cases", "other_kind_cases", "second_engine_cases", "kind_retag_cross_type_cases"],
-        &["accepted_untouched", "roundtrips_ok", "behaviour_crosschecks_ok", "behaviour_crosscheck_distinguishes_other_key", "rejected_by_auth"],
+        &["wrapped_keys", "tampered_cases", "other_kind_cases", "second_engine_cases", "kind_retag_cross_type_cases", "cross_blob_cases", "cross_blob_xor_cases", "cross_blob_wraps_sharing_kind_and_id"],
+        &["cross_blob_rejected_by_auth", "accepted_untouched", "roundtrips_ok", "behaviour_crosschecks_ok", "behaviour_crosscheck_distinguishes_other_key", "rejected_by_auth"],
     );
     rep.finish()
 }
